@@ -27,14 +27,14 @@ def load_known():
 
 
 def write_evidence(pid, ev):
-    d = os.path.join(ROOT, "evidence")
+    d = os.path.join(ROOT, "evidence") if not build.ALT else os.path.join(os.path.dirname(build.HARNESS), "evidence")
     os.makedirs(d, exist_ok=True)
     with open(os.path.join(d, pid + ".json"), "w") as f:
         json.dump(ev, f, indent=1)
 
 
 def write_replay(pid, seed, n, lines, extra):
-    d = os.path.join(ROOT, "replays", pid)
+    d = os.path.join(ROOT, "replays", pid) if not build.ALT else os.path.join(os.path.dirname(build.HARNESS), "replays", pid)
     os.makedirs(d, exist_ok=True)
     p = os.path.join(d, "seed%d-%d.txt" % (seed, n))
     with open(p, "w") as f:
